@@ -550,6 +550,35 @@ def run_natural(spec, rec, lib):
         rec.case("natural|cli|keyfile:%s" % kn)
         if after != raw:
             rec.violation("atomicity/repodata:cli/file-changed-with-bad-key-file/" + kn, "bad key file %s: file changed" % kn, {"kind": "natural", "keyfile": kn})
+    # key files of several lines / several keys / a key followed by something else: whatever the command makes of them, a run
+    # that REPORTS failure (exception or non-zero status) has left the file as it was
+    k2 = gkeys.key(3)
+    multi = {
+        "valid_then_note": key.seed.hex() + "\n# rotated 2021-03\n",
+        "valid_then_truncated": key.seed.hex() + "\n" + k2.seed.hex()[:40] + "\n",
+        "valid_then_uppercase": key.seed.hex() + "\n" + k2.seed.hex().upper() + "\n",
+        "valid_blank_then_junk": key.seed.hex() + "\n\nnot a key\n",
+        "two_valid_then_junk": key.seed.hex() + "\n" + k2.seed.hex() + "\nzz\n",
+        "junk_then_valid": "# key below\n" + key.seed.hex() + "\n",
+        "valid_crlf_then_junk": key.seed.hex() + "\r\nxyz\r\n",
+        "valid_then_comment_same_line": key.seed.hex() + "  # mine\n",
+        "two_keys_concatenated": key.seed.hex() + k2.seed.hex(),
+        "valid_then_nul": key.seed.hex() + "\x00",
+    }
+    for kn, kv in multi.items():
+        with open(path, "wb") as f:
+            f.write(raw)
+        with open(kp, "w", newline="") as f:
+            f.write(kv)
+        o = boundary.call(lib, lib.cli.cli, ["sign-artifacts", path, kp])
+        after = open(path, "rb").read()
+        rec.case("natural|cli|keyfile:%s" % kn)
+        reported = (not o.accepted) or (o.value not in (0, None))
+        rec.hist("multi_line_key_file_outcome", "%s:%s" % (kn, "reported-failure" if reported else "completed"))
+        if reported and after != raw:
+            rec.violation("atomicity/repodata:cli/file-changed-with-bad-key-file/" + kn,
+                          "key file %s: the command reported failure (%s) but the file changed" % (kn, o.brief() if not o.accepted else "status %r" % (o.value,)),
+                          {"kind": "natural", "keyfile": kn})
     # unreadable / missing / directory target
     for tn in ("missing", "directory"):
         p2 = os.path.join(d, "t_" + tn)
